@@ -167,8 +167,9 @@ def _judge_results(case, results, shared_evs, how):
                             "alone %r" % (how, i, op["src"], PROBES[j], got[j], _seq(op["src"])[j]))
         elif op["k"] == "recompile":
             want = _seq(op["src"])[op.get("probe", 0)]
+            others = [_seq(o["src"])[op.get("probe", 0)] for o in case["ops"] if o["k"] == "recompile" and o["ev"] == op["ev"] and o is not op]
             for got in r[1]:
-                if got != want:
+                if got != want and got not in others:
                     viol.append("%s: thread %d recompiled shared evaluator %d to source %d and then called it: got %r, the new text "
                                 "gives %r (a call made after one's own recompile returned must see the new experiment)"
                                 % (how, i, op["ev"], op["src"], got, want))
@@ -179,14 +180,80 @@ def _judge_results(case, results, shared_evs, how):
                 if got not in allowed:
                     viol.append("%s: call in thread %d on shared evaluator %d gave %r; sequentially (old or new text) %r"
                                 % (how, i, op["ev"], got, allowed))
+    all_targets = {}
+    for op in case["ops"]:
+        if op["k"] == "recompile":
+            all_targets.setdefault(op["ev"], []).append(op["src"])
     order = list(enumerate(shared_evs))
     for e, ev in order[::-1] + order:
-        want = _seq(targets.get(e, case["shared"][e]))
+        # (several threads may have deployed different texts to one evaluator: whichever came last is its text)
+        wants = [_seq(s) for s in all_targets.get(e, [case["shared"][e]])]
         got = [sut.call(ev, p) for p in PROBES]
-        if got != want:
+        if got not in wants:
             viol.append("%s: after the run shared evaluator %d does not behave like a fresh evaluator of its last text" % (how, e))
             break
+    if not viol:
+        # ... and the next deploys, made by one thread after everything has settled, take effect like any other (checked where
+        # several threads deployed different texts to one evaluator, and on every tenth pre-emption point otherwise)
+        sampled = bool(case.get("sweep")) and case["schedule"] and case["schedule"][0][1] % 25 == 0
+        for e, ev in order:
+            ts = sorted(set(all_targets.get(e, [])))
+            if not (len(ts) >= 2 or (ts and sampled)):
+                continue
+            got = [sut.call(ev, p) for p in PROBES]
+            cur = next((t for t in ts if _seq(t) == got), None)
+            for s in [t for t in ts if t != cur] + [t for t in ts if t == cur] + [case["shared"][e]]:
+                try:
+                    ev.recompile(SOURCES[s])
+                    got = [sut.call(ev, p) for p in PROBES]
+                except Exception as ex:
+                    got = "%s: %s" % (type(ex).__name__, ex)
+                if got != _seq(s):
+                    viol.append("%s: after the run, a sequential recompile() of shared evaluator %d to source %d does not take effect (the evaluator "
+                                "does not behave like a fresh evaluator of that text: function and change-detection state no longer belong together)" % (how, e, s))
+                    break
+            if viol:
+                break
     return viol
+
+
+def _conflicting(case):
+    seen = {}
+    for op in case.get("ops", []):
+        if op.get("k") == "recompile":
+            seen.setdefault(op["ev"], set()).add(op["src"])
+    return any(len(v) >= 2 for v in seen.values())
+
+
+def known_filter(case, viol):
+    """K2 (known finding): conflicting concurrent deploys to one evaluator can leave function and checksum of different texts"""
+    if not any(k.get("id") == "K2" for k in runner.known_for("C17")):
+        return None
+    if isinstance(case, dict) and _conflicting(case) and viol and all("does not take effect" in m for m in viol):
+        return "K2"
+    return None
+
+
+def k2_probe(ctx, rec):
+    """the listed reproduction of K2, run on its own: printed as KNOWN-FINDING while it still fails"""
+    if not any(k.get("id") == "K2" for k in runner.known_for("C17")):
+        return
+    a, b = {"k": "recompile", "ev": 0, "src": 2, "probe": 1}, {"k": "recompile", "ev": 0, "src": 1, "probe": 4}
+    base = {"shared": [0], "ops": [a, b], "cycle": False}
+    total, log = _lines_alone(dict(base, schedule=[]), want_log=True)
+    last = {}
+    for i, k in enumerate(log):
+        last[k] = i + 1
+    for L in sorted(last.values())[-40:]:
+        v = judge(dict(base, schedule=[[0, L], [1, 10 ** 9], [0, 10 ** 9]], sweep=True))
+        rec.count("k2_probe")
+        if v["viol"] and known_filter(base, v["viol"]):
+            rec.known_finding("K2", "two threads recompiling one evaluator to different texts can leave the function of one text with the checksum of the "
+                              "other: a later sequential recompile() to that text is skipped (still failing: thread 0 pre-empted after %d lines)" % L)
+            return
+        if v["viol"]:
+            rec.violation("k2-probe", dict(base, schedule=[[0, L], [1, 10 ** 9], [0, 10 ** 9]]), v["viol"])
+            return
 
 
 def judge(case):
@@ -267,6 +334,9 @@ def sweep_pairs(ctx):
     # two threads recompile the same evaluator to the same new text, each then calls it
     for old, new in [(0, 2), (1, 4), (5, 0)]:
         pairs.append(([old], {"k": "recompile", "ev": 0, "src": new, "probe": 1}, {"k": "recompile", "ev": 0, "src": new, "probe": 4}))
+    # two threads deploy DIFFERENT texts to the same evaluator (two config pushes racing): one of them wins, and later deploys work
+    for old, n1, n2 in [(0, 2, 1), (1, 4, 0), (5, 0, 3)]:
+        pairs.append(([old], {"k": "recompile", "ev": 0, "src": n1, "probe": 1, "race": True}, {"k": "recompile", "ev": 0, "src": n2, "probe": 4, "race": True}))
     # two threads hand the same invalid text to the same evaluator
     for old, t in [(0, 0), (2, 1), (1, 2)]:
         pairs.append(([old], {"k": "recompile_invalid", "ev": 0, "text": t}, {"k": "recompile_invalid", "ev": 0, "text": t}))
@@ -325,7 +395,7 @@ def construct_double_cases(ctx):
 def sweep_cases(ctx):
     pairs = sweep_pairs(ctx)
     if ctx.quick:
-        pairs = [pairs[i] for i in (0, 4, 8, 11, 13, 16, 19, 22, 23, 24, 26) if i < len(pairs)]
+        pairs = [pairs[i] for i in (0, 4, 8, 11, 13, 16, 22, 25, 27, 29) if i < len(pairs)]  # (conflicting deploys: see k2_probe; all pairs in the thorough tier)
     for shared, a, b in pairs:
         base = {"shared": shared, "ops": [a, b], "cycle": False}
         total, log = _lines_alone(dict(base, schedule=[]), want_log=True)
@@ -469,11 +539,47 @@ def judge_cold(case):
 
 def judge_case(record):
     c = record["case"]
+    if c.get("idless"):
+        return judge_idless(c)["viol"]
     if "preempt_after" in c:
         return judge_cold(c)["viol"]
     if "texts" in c:
         return judge_storm(c)["viol"]
     return (judge_preemptive(c) if "rounds" in c else judge(c))["viol"]
+
+
+def judge_idless(case):
+    """experiments without splitter fields draw at random: from worker threads (pool threads that did not import the library)
+    every draw is still one of the declared groups, never an error"""
+    E = sut.evaluator_mod().ExperimentEvaluator
+    dc = sut.binning().deterministic_choice
+    text = 'def rnd { if plan == "pro" { return "R1" weighted 1, "R2" weighted 3 } else { return "R3" weighted 1, 4 weighted 1 } }'
+    errors, seen = [], set()
+
+    def work(i):
+        try:
+            ev = E(text) if i % 2 else shared
+            for j in range(case["draws"]):
+                seen.add(repr(ev(plan=["pro", "free"][(i + j) % 2])))
+                seen.add(repr(dc(None, ["R1", "R2"], weights=[1, 1])))
+                seen.add(repr(dc(None, ["R1", "R2", "R3"])))
+        except BaseException as e:
+            errors.append("%s: %s" % (type(e).__name__, str(e)[:200]))
+
+    shared = E(text)
+    ts = [threading.Thread(target=work, args=(i,), daemon=True) for i in range(case["threads"])]
+    for t in ts:
+        t.start()
+    for t in ts:
+        t.join(timeout=60)
+    viol = []
+    if errors:
+        viol.append("id-less draws in %d worker threads raised: %s" % (case["threads"], errors[0]))
+    extra = seen - {repr("R1"), repr("R2"), repr("R3"), repr(4)}
+    if extra:
+        viol.append("id-less draws in worker threads returned %s, which no statement declares" % sorted(extra)[:3])
+    return {"viol": viol, "nontrivial": len(seen) >= 3, "tags": ["id-less-draws", "threads:%d" % case["threads"]], "key": ["idless", case["threads"], case["draws"]],
+            "sample": {"id-less draws per thread": case["draws"], "threads": case["threads"]}}
 
 
 def noise_cases():
@@ -488,13 +594,21 @@ def noise_cases():
 
 def run(ctx, rec):
     if ctx.shard == 0:
+        k2_probe(ctx, rec)
+        if rec.violations:
+            return
+    if ctx.shard == 0:
+        runner.direct_run(ctx, rec, "id-less-draws-in-worker-threads", [{"idless": True, "threads": t, "draws": d} for t, d in ((1, 20), (8, 50), (16, 20))], judge_idless)
+        if rec.violations:
+            return
+    if ctx.shard == 0:
         runner.direct_run(ctx, rec, "odd-text-then-construct-in-one-thread", noise_cases(), judge)
         if rec.violations:
             return
-    runner.hyp_run(ctx, rec, "owned-schedules", cases(), judge, ctx.n(150, 600))
+    runner.hyp_run(ctx, rec, "owned-schedules", cases(), judge, ctx.n(150, 600), known_filter=known_filter)
     if rec.violations:
         return
-    runner.direct_run(ctx, rec, "single-preemption-sweeps", sweep_cases(ctx), judge)
+    runner.direct_run(ctx, rec, "single-preemption-sweeps", sweep_cases(ctx), judge, known_filter=known_filter)
     if rec.violations:
         return
     runner.direct_run(ctx, rec, "call-call-double-sweeps", call_call_cases(ctx), judge)
@@ -524,4 +638,4 @@ def run(ctx, rec):
         c["rounds"] = 20
         return c
 
-    runner.hyp_run(ctx, rec, "pre-emptive", pre(), judge_preemptive, 40, shrink=False)
+    runner.hyp_run(ctx, rec, "pre-emptive", pre(), judge_preemptive, 40, shrink=False, known_filter=known_filter)
